@@ -5,6 +5,7 @@ import (
 	"reflect"
 	"sort"
 	"time"
+	"unsafe"
 )
 
 // obj is the happens-before identity of a synchronisation object.
@@ -196,7 +197,8 @@ func Reg[T any](p *T) *T {
 	s := S
 	if s != nil {
 		s.nextObj++
-		s.regs[p] = s.nextObj
+		s.regs[uintptr(unsafe.Pointer(p))] = s.nextObj
+		s.regKeep = append(s.regKeep, p) // keeps the object alive: its address is not reused
 	}
 	return p
 }
@@ -207,9 +209,11 @@ func keyOrder(v reflect.Value) string {
 		if v.IsNil() {
 			return "p0"
 		}
-		id, ok := S.regs[v.Interface()]
+		// by address (works for unexported fields of struct keys, too)
+		id, ok := S.regs[v.Pointer()]
 		if !ok {
-			panic(fmt.Sprintf("vmc: map key %T is an unregistered pointer: iteration order would not be deterministic", v.Interface()))
+			// a limit of the machinery, not a property violation
+			panic(Divergence{fmt.Sprintf("unsupported: map key of type %s is a pointer that was not created by a composite literal or new() in the rewritten package: iteration order would not be deterministic", v.Type())})
 		}
 		return fmt.Sprintf("p%012d", id)
 	case reflect.Struct:
